@@ -279,16 +279,16 @@ PROPS = {
     },
     "C09": {
         "module": "HctlProofs.Props.C09",
-        "extra_modules": ["HctlProofs.Lemmas.MarkDups"],
+        "extra_modules": ["HctlProofs.Lemmas.MarkDups", "HctlProofs.Lemmas.CanonConverse"],
         "theorems": ["Hctl.C09.renaming_injective", "Hctl.C09.renaming_names", "Hctl.C09.renaming_total",
                      "Hctl.C09.canonName_injective", "Hctl.C09.dupIncr_keys", "Hctl.canonChars_render", "Hctl.canon_eq_of_key_eq",
                      "Hctl.canonTreeAux_shape", "Hctl.eq_mapVars_of_canon_eq", "Hctl.canonTreeAux_mapKeys", "Hctl.sat_renameVar",
                      "Hctl.keySem_holds", "Hctl.keyWild_holds", "Hctl.single_name_transfer", "Hctl.dups_le_one", "Hctl.markDups_witness",
                      "Hctl.canonTree_idempotent", "Hctl.canonChars_idempotent", "Hctl.canon_invariant_under_renaming",
-                     "Hctl.canon_eq_imp_renaming_single", "Hctl.markDups_count"],
+                     "Hctl.canon_eq_imp_renaming_single", "Hctl.markDups_count", "Hctl.canon_eq_imp_renaming"],
         "ks": ["k5", "k6"],
         "spec_tied": [],
-        "full": False,
+        "full": True,
         "not_proved": "proved: the character-level pass of the code on a rendering equals the rendering of the tree-level canonical form, with "
                       "the same renaming (canonChars_render, every tree over valid identifiers); the renaming is a total injective function "
                       "onto fresh names var0, var1, …; the canonical form has the shape of the tree (canonTreeAux_shape) and canonisation "
@@ -297,10 +297,9 @@ PROPS = {
                       "Also proved: idempotence (canonTree_idempotent, canonChars_idempotent), 'equal up to an injective renaming => same canonical "
                       "form' for any number of variables (canon_invariant_under_renaming), the converse for single-named trees "
                       "(canon_eq_imp_renaming_single), and that mark_duplicates only reports keys of sub-formulae with at most one "
-                      "variable (markDups_witness). The counter bound is proved too (markDups_count: counter n >= 1 and at least n+1 occurrences with that key). NOT proved "
-                      "in Lean: only the converse 'same canonical form => equal up to renaming' for SEVERAL variables (the cache never "
-                      "uses such keys); it is decided by the model-free oracle of K5 (independent alpha-normal form) and the "
-                      "model<->code correspondence",
+                      "variable (markDups_witness). The counter bound is proved too (markDups_count: counter n >= 1 and at least n+1 occurrences with that key), and so is "
+                      "the general converse (canon_eq_imp_renaming: depth-named sub-formulae with the same canonical form are equal up "
+                      "to an injective renaming, any number of variables). Nothing of the statement is left unproved on the model",
         "rule": "K5: every sub-formula of all preprocessed trees with <= 4 (5) nodes + random preprocessed trees (propositions such as a3, V_b); "
                 "pairwise oracle: same canonical form iff same alpha-normal form. K6: batches of 1-4 formulae with planted overlaps "
                 "(renamed, under same/different/nested domains, under jumps); oracle: independent occurrence count",
@@ -450,8 +449,8 @@ MANIFEST_TEXT.update({
                     "the rendering of the tree-level canonical form with the same renaming (canonChars_render); the renaming is a total "
                     "injective function onto fresh names; canonisation is idempotent and invariant under injective renamings; for the "
                     "keys the cache uses (at most one variable) equal canonical forms mean equal up to renaming; mark_duplicates reports "
-                    "a key with counter n only if n >= 1 and the key has at least n+1 occurrences. Only the multi-variable converse is "
-                    "left to the model-free alpha-equivalence oracle.",
+                    "a key with counter n only if n >= 1 and the key has at least n+1 occurrences; equal canonical forms of depth-named "
+                    "sub-formulae imply equality up to an injective renaming for any number of variables (canon_eq_imp_renaming).",
             "note": _FRONT_NOTE,
             "technique": "Lean 4 proof (state invariant of the canonisation pass) + differential correspondence check + independent alpha-equivalence / occurrence-count oracles"},
 })
